@@ -465,30 +465,47 @@ func (m *Machine) rangeIter(x value, t types.Type) iter {
 }
 
 // permute applies the harness-selected map iteration order policy.
+//   0 canonical (insertion order)
+//   1 reversed at every range site
+//   2 one symbolic "seed" p in 0..5 per run, applied consistently at every range site:
+//     n==2: swapped iff p odd; n==3: the p-th of the 6 permutations; n>3: rotated by p (mod n), reversed iff p odd
 func (m *Machine) permute(order []int) []int {
 	n := len(order)
 	if m.mapOrder == 0 || n < 2 {
 		return order
 	}
-	switch m.mapOrder {
-	case 1: // reversed
-		out := make([]int, n)
-		for i, v := range order {
-			out[n-1-i] = v
+	rev := func(in []int) []int {
+		out := make([]int, len(in))
+		for i, v := range in {
+			out[len(in)-1-i] = v
 		}
 		return out
-	case 2: // every permutation, chosen by forking (Lehmer code)
-		avail := append([]int(nil), order...)
-		out := make([]int, 0, n)
-		for len(avail) > 1 {
-			k := m.choose(len(avail))
-			out = append(out, avail[k])
-			avail = append(avail[:k], avail[k+1:]...)
+	}
+	switch m.mapOrder {
+	case 1:
+		return rev(order)
+	case 2:
+		if m.mapSeed < 0 {
+			m.mapSeed = m.choose(6)
 		}
-		return append(out, avail[0])
-	case 3: // every rotation, chosen by forking
-		k := m.choose(n)
-		return append(append([]int(nil), order[k:]...), order[:k]...)
+		p := m.mapSeed
+		switch {
+		case n == 2:
+			if p%2 == 1 {
+				return rev(order)
+			}
+			return order
+		case n == 3:
+			perms := [][]int{{0, 1, 2}, {0, 2, 1}, {1, 0, 2}, {1, 2, 0}, {2, 0, 1}, {2, 1, 0}}[p]
+			return []int{order[perms[0]], order[perms[1]], order[perms[2]]}
+		default:
+			k := p % n
+			out := append(append([]int(nil), order[k:]...), order[:k]...)
+			if p%2 == 1 {
+				out = rev(out)
+			}
+			return out
+		}
 	}
 	return order
 }
@@ -499,8 +516,7 @@ func (m *Machine) choose(n int) int {
 		return 0
 	}
 	v := m.fresh("order", S8)
-	m.assume(m.st.Bin(OpULT, v, m.st.BV(8, uint64(n))))
-	return int(m.concretize(v))
+	return int(m.chooseFresh(v, n))
 }
 
 func (m *Machine) fresh(prefix string, so Sort) *Term {
